@@ -49,6 +49,34 @@ Definition c02_bg_gated (c : case) : bool :=
   user_cause (rc_spec c) (rc_status c) (rc_wl c) ||
   gated_transition_bg (rc_spec c) (rc_status c) (rc_wl c) (rc_br c) (ob_status o).
 
+(* C07 for blue-green: what a quiet reconcile may be waiting for.  No shortcut out of the last pause; a new revision during a
+   blue-green release is refused until the user rolls back (that wait is the user's) *)
+Definition waits_rolling_bg (sp : ro_spec) (u : sub) (w : wl) (br : option brel) : bool :=
+  match su_state u with
+  | StUpgrade => br_waiting sp u w br
+  | StPaused => manual_pause sp u false
+  | StOther => true
+  | _ => false end.
+Definition waits_on_bg (sp : ro_spec) (st : ro_status) (w : wl) (br : option brel) : bool :=
+  match rp_phase st with
+  | RpProgressing =>
+    negb (wl_exists w) || negb (wl_consistent w) ||
+    match rp_prog st with
+    | Some (PrInRolling, _, _) =>
+      match rp_sub st with
+      | Some u => let u1 := observed_sub w u in
+                  waits_rolling_bg sp u1 w (synced_br u1 br) ||
+                  (negb (sempty (su_canary_rev u)) && negb (String.eqb (wl_canary w) (su_canary_rev u)) && negb (wl_in_rollback w) && negb (rs_paused sp))
+      | None => false end
+    | Some (PrPaused, _, _) => rs_paused sp
+    | Some (PrOther, _, _) => true
+    | _ => false end
+  | RpTerminating | RpDisabling => false
+  | _ => true
+  end.
+Definition c07_quiet_means_waiting_bg (c : case) : bool :=
+  if quiet_obs c && negb (rs_deleting (rc_spec c)) then waits_on_bg (rc_spec c) (rc_status c) (rc_wl c) (rc_br c) else true.
+
 Definition judge (c : case) : list verdict :=
   [ if corresponds_bg c then VOk else VMismatch;
     (* as for canary: a hand-edited BatchRelease (partition nil or outside its plan) read by recalculateCanaryStep is not an
@@ -60,7 +88,8 @@ Definition judge (c : case) : list verdict :=
          negb (sempty (su_hash u)) && negb (String.eqb (su_hash u) (rs_hash (rc_spec c))) &&
          match br_partition b with None => true | Some p => (p <? 0) || (zlen (br_batches b) <=? p) end
        | _, _, _ => false end);
-    clause "C02_bluegreen_steps_are_gated" (c02_bg_gated c) ].
+    clause "C02_bluegreen_steps_are_gated" (c02_bg_gated c);
+    clause "C07_quiet_bluegreen_reconcile_is_waiting_for_someone" (negb (in_domain c) || ob_panic (rc_obs c) || c07_quiet_means_waiting_bg c) ].
 
 Definition tag (c : case) : string :=
   match reconcile_bg (rc_spec c) (rc_status c) (rc_wl c) (rc_br c) with
